@@ -3,6 +3,7 @@ use turdb::storage::{Freelist, Storage, PAGE_SIZE, TRUNK_MAX_ENTRIES};
 
 /// Array-backed implementation of the crate's public `Storage` trait (the instantiation of the generic
 /// `Freelist::{allocate, release}<S>` that is verified).
+#[repr(C, align(16))]
 pub struct MemStore<const P: usize> {
     pub pages: [[u8; PAGE_SIZE]; P],
 }
@@ -16,6 +17,18 @@ impl<const P: usize> Storage for MemStore<P> {
     fn grow(&mut self, _n: u32) -> eyre::Result<()> { Ok(()) }
     fn page_count(&self) -> u32 { P as u32 }
     fn sync(&self) -> eyre::Result<()> { Ok(()) }
+}
+
+/// Stubs for the two zerocopy cast wrappers of `TrunkHeader` (size/alignment validation of the cast): zerocopy's
+/// generic layout arithmetic on symbolic addresses made one freelist step run out of 24 GB. The stubs keep the length
+/// check and cast directly; Kani still checks the dereference (alignment: the store is 16-aligned, trunk header at +16).
+pub fn stub_trunk_from_bytes(data: &[u8]) -> eyre::Result<&turdb::storage::TrunkHeader> {
+    eyre::ensure!(data.len() >= 8, "buffer too small for TrunkHeader");
+    Ok(unsafe { &*(data.as_ptr() as *const turdb::storage::TrunkHeader) })
+}
+pub fn stub_trunk_from_bytes_mut(data: &mut [u8]) -> eyre::Result<&mut turdb::storage::TrunkHeader> {
+    eyre::ensure!(data.len() >= 8, "buffer too small for TrunkHeader");
+    Ok(unsafe { &mut *(data.as_mut_ptr() as *mut turdb::storage::TrunkHeader) })
 }
 
 const HDR: usize = 16; // PAGE_HEADER_SIZE
@@ -42,7 +55,7 @@ fn alloc_one<const P: usize>(fl: &mut Freelist, st: &mut MemStore<P>) -> Option<
 }
 
 // @vt prop=C34 tier=quick feat=sp fs=600 bound="histories from the empty freelist: release a, release b, then allocate until empty (a, b arbitrary distinct pages of a 4-page store with arbitrary prior page contents)" outside="longer histories (see the inductive harnesses); more pages" timeout=900 mem=16
-vt_proof_pg! { unwind = 3; fn c34_release_two_then_drain() {
+vt_proof_fl! { unwind = 3; fn c34_release_two_then_drain() {
     let mut st = store();
     let mut fl = Freelist::new();
     let a: u32 = kani::any(); let b: u32 = kani::any();
@@ -94,13 +107,13 @@ fn drain_chain(c0: usize, two: bool, c1: usize) {
 }
 
 // @vt prop=C34 tier=quick feat=sp fs=600 bound="drain of ANY valid single trunk with 0..=2 entries (arbitrary distinct entry page numbers)" outside="trunks with more than 2 entries in the drain (the full-trunk boundary is decided in c34_release_step)" timeout=1200 mem=16
-vt_proof_pg! { unwind = 3; fn c34_drain_one_trunk() {
+vt_proof_fl! { unwind = 3; fn c34_drain_one_trunk() {
     let c0: usize = kani::any(); kani::assume(c0 <= 2);
     kani::cover!(c0 == 0, "w:single_empty_trunk");
     if c0 == 0 { drain_chain(0, false, 0) } else if c0 == 1 { drain_chain(1, false, 0) } else { drain_chain(2, false, 0) }
 }}
 // @vt prop=C34 tier=quick feat=sp fs=600 bound="drain of ANY valid chain of 2 trunks with 0..=2 and 0..=1 entries (arbitrary distinct entry page numbers)" outside="longer chains; more entries per trunk in the drain" timeout=1800 mem=16
-vt_proof_pg! { unwind = 3; fn c34_drain_two_trunks() {
+vt_proof_fl! { unwind = 3; fn c34_drain_two_trunks() {
     let c0: usize = kani::any(); let c1: usize = kani::any();
     kani::assume(c0 <= 2 && c1 <= 1);
     kani::cover!(c0 == 0 && c1 == 1, "w:empty_head_trunk_before_nonempty_trunk");
@@ -142,8 +155,8 @@ fn release_step(c0: usize, p: u32) {
 }
 
 // @vt prop=C34 tier=quick feat=sp fs=600 bound="one release + one allocate from ANY valid head trunk holding 0 or 1 entries, released page 2 / 3 with arbitrary prior contents" outside="other entry counts (the code path depends only on empty / has room / full)" timeout=1200 mem=16
-vt_proof_pg! { unwind = 3; fn c34_release_step_small() { if kani::any() { release_step(0, 2) } else { release_step(1, 3) } kani::cover!(true, "w:reached_end"); }}
+vt_proof_fl! { unwind = 3; fn c34_release_step_small() { if kani::any() { release_step(0, 2) } else { release_step(1, 3) } kani::cover!(true, "w:reached_end"); }}
 // @vt prop=C34 tier=quick feat=sp fs=600 bound="one release + one allocate from ANY valid head trunk holding 121 entries (one slot left), released page 2" outside="-" timeout=1200 mem=16
-vt_proof_pg! { unwind = 3; fn c34_release_step_last_slot() { release_step(TRUNK_MAX_ENTRIES - 1, 2); kani::cover!(true, "w:reached_end"); }}
+vt_proof_fl! { unwind = 3; fn c34_release_step_last_slot() { release_step(TRUNK_MAX_ENTRIES - 1, 2); kani::cover!(true, "w:reached_end"); }}
 // @vt prop=C34 tier=quick feat=sp fs=600 bound="one release + one allocate from ANY valid FULL head trunk (122 entries): the released page (3, arbitrary prior contents) becomes the new head trunk" outside="-" timeout=1200 mem=16
-vt_proof_pg! { unwind = 3; fn c34_release_step_full_trunk() { release_step(TRUNK_MAX_ENTRIES, 3); kani::cover!(true, "w:full_trunk_boundary"); }}
+vt_proof_fl! { unwind = 3; fn c34_release_step_full_trunk() { release_step(TRUNK_MAX_ENTRIES, 3); kani::cover!(true, "w:full_trunk_boundary"); }}
